@@ -541,6 +541,57 @@ static int op_keypair_xonly_tweak_add(void) {
     return 1;
 }
 
+static int op_pubkey_sort(void) {
+    secp256k1_pubkey *pks; const secp256k1_pubkey **ptrs; int i, ret;
+    pks = (secp256k1_pubkey*)malloc((g_argc + 1) * sizeof *pks);
+    ptrs = (const secp256k1_pubkey**)malloc((g_argc + 1) * sizeof *ptrs);
+    for (i = 0; i < g_argc; i++) { if (!tok_pubkey(i, &pks[i])) { free(pks); free(ptrs); return -1; } ptrs[i] = &pks[i]; }
+    ret = secp256k1_ec_pubkey_sort(CTX, ptrs, (size_t)g_argc);
+    out_int(ret);
+    for (i = 0; i < g_argc; i++) out_pubkey(ptrs[i]);
+    free(pks); free(ptrs);
+    return 1;
+}
+/* key_chain sk op* : a<t> add, m<t> mul, n negate, x<t> x-only (keypair) tweak; applied on both sides */
+static int tok_hex32(const char *s, unsigned char *out) {
+    size_t k; if (strlen(s) != 64) return 0;
+    for (k = 0; k < 32; k++) { int a = hexval(s[2*k]), b = hexval(s[2*k+1]); if (a < 0 || b < 0) return 0; out[k] = (unsigned char)(a*16+b); }
+    return 1;
+}
+static int op_key_chain(void) {
+    unsigned char sk[32], t[32]; secp256k1_pubkey pk; int i, sec_ok = 1, pub_ok = 1;
+    if (g_argc < 1) return -1; NEEDHEX(0, 32);
+    memcpy(sk, A(0)->b, 32);
+    if (!secp256k1_ec_pubkey_create(CTX, &pk, sk)) { out_str("badkey"); return 1; }
+    for (i = 1; i < g_argc; i++) {
+        const char *s = A(i)->s; char c = s[0];
+        if (c == 'n') { if (s[1]) return -1; }
+        else if (c == 'a' || c == 'm' || c == 'x') { if (!tok_hex32(s + 1, t)) return -1; }
+        else return -1;
+        if (sec_ok) {
+            if (c == 'a') sec_ok = secp256k1_ec_seckey_tweak_add(CTX, sk, t);
+            else if (c == 'm') sec_ok = secp256k1_ec_seckey_tweak_mul(CTX, sk, t);
+            else if (c == 'n') sec_ok = secp256k1_ec_seckey_negate(CTX, sk);
+            else { secp256k1_keypair kp; sec_ok = secp256k1_keypair_create(CTX, &kp, sk);
+                   if (sec_ok) sec_ok = secp256k1_keypair_xonly_tweak_add(CTX, &kp, t);
+                   if (sec_ok) secp256k1_keypair_sec(CTX, sk, &kp); }
+        }
+        if (pub_ok) {
+            if (c == 'a') pub_ok = secp256k1_ec_pubkey_tweak_add(CTX, &pk, t);
+            else if (c == 'm') pub_ok = secp256k1_ec_pubkey_tweak_mul(CTX, &pk, t);
+            else if (c == 'n') pub_ok = secp256k1_ec_pubkey_negate(CTX, &pk);
+            else { secp256k1_xonly_pubkey x; secp256k1_pubkey o; pub_ok = secp256k1_xonly_pubkey_from_pubkey(CTX, &x, NULL, &pk);
+                   if (pub_ok) pub_ok = secp256k1_xonly_pubkey_tweak_add(CTX, &o, &x, t);
+                   if (pub_ok) pk = o; }
+        }
+    }
+    out_str("sec"); if (sec_ok) out_hex(sk, 32); else out_str("fail");
+    out_str("pub"); if (pub_ok) out_pubkey(&pk); else out_str("fail");
+    out_str("derived");
+    if (sec_ok) { secp256k1_pubkey d; if (secp256k1_ec_pubkey_create(CTX, &d, sk)) out_pubkey(&d); else out_str("Z"); } else out_str("fail");
+    return 1;
+}
+
 /* ----- Schnorr ----- */
 /* schnorr_sign msg sk pk noncefn ndata : through sign_custom (sign32 additionally when msg is 32 bytes and noncefn is d) */
 static int op_schnorr_sign(void) {
@@ -603,6 +654,7 @@ static int ops_basic(const char *op) {
     OP("xonly_tweak_add_check", op_xonly_tweak_add_check())
     OP("keypair_create", op_keypair_create()) OP("keypair_xonly_pub", op_keypair_xonly_pub())
     OP("keypair_xonly_tweak_add", op_keypair_xonly_tweak_add())
+    OP("pubkey_sort", op_pubkey_sort()) OP("key_chain", op_key_chain())
     OP("schnorr_sign", op_schnorr_sign()) OP("schnorr_verify", op_schnorr_verify()) OP("nonce_bip340", op_nonce_bip340())
 #undef OP
     return 0;
